@@ -73,12 +73,43 @@ def cli_results(project: Path, hashseed, extra=()):
     return p.returncode, p.stdout, p.stderr
 
 
+def class_program(rng):
+    """A module with enum-like / plain / static-method classes and functions that construct or call
+    them, in random order (imports stay first). Returns (source, chunks, import header)."""
+    header = "from enum import Enum\n"
+    chunks = [
+        "class Status(Enum):\n    ACTIVE = 1\n    DONE = 2\n",
+        "class Priority(Enum):\n    LOW = 1\n    HIGH = 2\n",
+        "class Box:\n    def __init__(self, v):\n        self.held = v.box_attr\n",
+        "class Holder:\n    @staticmethod\n    def sm(z):\n        return z.sm_attr\n",
+        "def use_status(x):\n    return Status(x.raw)\n",
+        "def use_priority(y):\n    p = Priority(y.level)\n    return p\n",
+        "def use_box(p):\n    b = Box(p)\n    return b\n",
+        "def use_static(q):\n    return Holder.sm(q)\n",
+        "def outer(r):\n    use_status(r)\n    use_box(r.inner)\n    use_priority(r.other)\n",
+    ]
+    rng.shuffle(chunks)
+    return header, chunks
+
+
+UNRELATED_CLASSES = [
+    "class StatusCode:\n    OK = 200\n    BAD = 400\n",            # name extends an enum's name
+    "class PriorityQueue:\n    size = 0\n    items = ()\n",
+    "class Boxes:\n    count = 0\n",
+    "class Unrelated:\n    def __init__(self, u):\n        self.z = u.unrelated_attr\n",
+]
+
+
 STAR_PROJECTS = [
     # (name, files, expected-known-signature or None)
     ("star-clash", {"target.py": "from a import *\nfrom b import *\n\ndef caller(p):\n    f(p)\n",
                     "a.py": "def f(x):\n    x.from_a\n", "b.py": "def f(x):\n    x.from_b\n"}),
     ("star-disjoint", {"target.py": "from a import *\nfrom b import *\n\ndef caller(p):\n    fa(p)\n    fb(p)\n",
                        "a.py": "def fa(x):\n    x.from_a\n", "b.py": "def fb(x):\n    x.from_b\n"}),
+    ("same-class-name-in-two-modules", {
+        "target.py": "import ma\nimport mb\n\ndef caller(p, q):\n    ma.make(p)\n    mb.make(q)\n",
+        "ma.py": "class K:\n    def __init__(self, a):\n        self.s = a.from_ma\n\ndef make(x):\n    k = K(x)\n    return k\n",
+        "mb.py": "class K:\n    def __init__(self, a):\n        self.s = a.from_mb\n\ndef make(x):\n    k = K(x)\n    return k\n"}),
     ("plain-imports", {"target.py": "from a import fa\nimport b\n\ndef caller(p, q):\n    fa(p)\n    b.fb(q)\n    fa(q)\n",
                        "a.py": "def fa(x):\n    x.from_a\n    x.second = 1\n", "b.py": "def fb(x):\n    del x.from_b\n"}),
 ]
@@ -100,6 +131,50 @@ def run(tier, seed, build):
 
     model = common.Model()
     batch, metas = [], []
+    class_variants = []
+    for i in range(6 if tier == "quick" else 40):
+        header, chunks = class_program(rng)
+        base_src = header + "\n" + "\n".join(chunks)
+        vs = []
+        for _ in range(n_perm):
+            perm = chunks[:]
+            rng.shuffle(perm)
+            vs.append(("perm", header + "\n" + "\n".join(perm)))
+        extra = chunks[:]
+        for u in rng.sample(UNRELATED_CLASSES, rng.randint(1, 3)):
+            extra.insert(rng.randint(0, len(extra)), u)
+        vs.append(("added", header + "\n" + "\n".join(extra)))
+        class_variants.append((f"classes{i}", base_src, vs))
+    for label, base_src, vs in class_variants:
+        res.evaluations += 1
+        base = results_by_name(base_src)
+        if base is None:
+            res.internal_errors.append({"what": "class program failed to analyse", "source": base_src})
+            continue
+        _, _, by0 = base
+        res.nontrivial.add(common.digest(base_src))
+        for kind, vsrc in vs:
+            res.evaluations += 1
+            v = results_by_name(vsrc)
+            if v is None:
+                res.internal_errors.append({"what": "class program variant failed to analyse", "source": vsrc})
+                continue
+            _, _, by = v
+            diff = [n for n in by0 if n in by and by[n] != by0[n]]
+            if not diff:
+                res.count(f"classes:{kind}:same")
+                continue
+            # the one known class-related order dependence: a static method called by a function
+            # defined before the class (C08 finding); recognised from the SOURCE alone
+            static_callers = {"use_static"}
+            if set(diff) <= static_callers:
+                sig = "results-depend-on-definition-order-or-unrelated-code:static-method-defined-after-caller"
+            else:
+                sig = "results-depend-on-definition-order-or-unrelated-code:classes:" + "+".join(sorted(diff))
+            res.count(f"classes:{kind}:differs")
+            res.violations.append({"signature": sig, "case": {"label": label, "variant": kind, "source": vsrc, "base": base_src},
+                                   "functions": diff, "base_results": {n: by0[n] for n in diff},
+                                   "variant_results": {n: by[n] for n in diff}})
     for label, src in programs:
         base = results_by_name(src)
         res.evaluations += 1
